@@ -171,6 +171,26 @@ InvCarry == \A o \in MutOps :
    (o.op \in {"replace", "set"} /\ Causes(s, o) = {} /\ HasType(s.f, o.b.t) /\ o.b.c = NoComment)
      => Outcome(s, o).g.stored[o.b.t].c = s.g.stored[o.b.t].c
 
+\* ---------------------------------------------------------------- table-only abstraction
+\* TdfTableRel states add / remove as relations on the table alone; Apalache proves that TInv
+\* is inductive for them with N = 14 and arbitrary sizes (TdfTableInd).  Here TLC ties those
+\* relations to the operators that are validated against the code: in every reachable state,
+\* the table part of every accepted mutation satisfies the relation, and TInv holds.
+TR == INSTANCE TdfTableRel WITH N <- N, TE <- HDR + ENT * N
+TableOf(f) == [ty |-> [i \in 1..N |-> f.table[i].type], off |-> [i \in 1..N |-> f.table[i].offset],
+               sz |-> [i \in 1..N |-> f.table[i].size], flen |-> FileLen(f)]
+InvTableInv == TR!TInv(TableOf(s.f)) /\ TR!EndFits(TableOf(s.f))
+InvTableAgree == \A o \in MutOps :
+   Causes(s, o) = {} =>
+     LET x == TableOf(s.f) IN
+     IF o.op = "remove" THEN TR!RemRel(x, TableOf(RemoveFile(s.f, o.t)), o.t)
+     ELSE LET b == Effective(s, o) IN
+          IF o.op = "add" \/ (o.op = "set" /\ ~SetIsReplace(s, o))
+          THEN TR!AddRel(x, TableOf(AddFile(s.f, b)), b.t, b.sz)
+          ELSE LET mid == RemoveFile(s.f, b.t) IN
+               /\ TR!RemRel(x, TableOf(mid), b.t)
+               /\ TR!AddRel(TableOf(mid), TableOf(AddFile(mid, b)), b.t, b.sz)
+
 \* export of the descriptors for the Python side (lib/verif/plan.py builds the
 \* real initial files from them)
 ASSUME ("DESC_OUT" \in DOMAIN IOEnv) => JsonSerialize(IOEnv.DESC_OUT, AllDescs)
